@@ -727,6 +727,7 @@ func (rn *runner) history(seedDesc string, nOps int) {
 		err     bool
 	}
 	var dObs, cObs []readerObs
+	var dErrs, cErrs []bool // one entry per Collect call of that reader (also the ones that returned no data)
 	var syncIdx []int
 	for i, k := range kinds {
 		if !k.async() {
@@ -821,14 +822,39 @@ func (rn *runner) history(seedDesc string, nOps int) {
 			}
 			// who collects: both readers (in either order), only the delta reader, only the cumulative one
 			who := vgen.Pick(r, []uint64{0, 0, 0, 1, 2})
+			cancelledCtx := r.Chance(1, 7) // Collect with a context that is already cancelled
+			cctx := ctx
+			if cancelledCtx {
+				var cancel context.CancelFunc
+				cctx, cancel = context.WithCancel(ctx)
+				cancel()
+				who += 3
+				w.Tally("collect:cancelled-context")
+			}
 			d := map[string]any{"history": seedDesc, "collection": nCollect}
 			collectOne := func(delta bool) bool {
 				var rm metricdata.ResourceMetrics
 				var e error
 				if delta {
-					e = deltaR.Collect(ctx, &rm)
+					e = deltaR.Collect(cctx, &rm)
 				} else {
-					e = cumR.Collect(ctx, &rm)
+					e = cumR.Collect(cctx, &rm)
+				}
+				if errors.Is(e, context.Canceled) {
+					// no data: nothing is added to this reader's trace, only the error is recorded
+					if len(rm.ScopeMetrics) != 0 {
+						w.Violation("Collect returned the context's error together with data", seedDesc)
+					}
+					if !cancelledCtx {
+						w.Violation("Collect returned context.Canceled although its context was live", seedDesc)
+					}
+					if delta {
+						dErrs = append(dErrs, true)
+					} else {
+						cErrs = append(cErrs, true)
+					}
+					w.Tally("collect:cancelled-with-error")
+					return true
 				}
 				if e != nil && !errors.Is(e, errCallback) {
 					w.Violation(fmt.Sprintf("Collect failed with an error other than the callback's: %v", e), seedDesc)
@@ -836,6 +862,11 @@ func (rn *runner) history(seedDesc string, nOps int) {
 				}
 				if e != nil {
 					w.Tally("collect:callback-error")
+				}
+				if delta {
+					dErrs = append(dErrs, e != nil)
+				} else {
+					cErrs = append(cErrs, e != nil)
 				}
 				if delta {
 					dObs = append(dObs, readerObs{streams: rn.extract(&rm, metricdata.DeltaTemporality, d), err: e != nil})
@@ -849,7 +880,7 @@ func (rn *runner) history(seedDesc string, nOps int) {
 				order = []bool{false, true}
 			}
 			for _, delta := range order {
-				if who == 0 || (who == 1) == delta {
+				if who%3 == 0 || (who%3 == 1) == delta {
 					if !collectOne(delta) {
 						return
 					}
@@ -938,11 +969,11 @@ func (rn *runner) history(seedDesc string, nOps int) {
 		w.Tally("kind:" + kindNames[in.kind] + "/" + fl)
 	}
 	var errDT, errCT []string
-	for _, co := range dObs {
-		errDT = append(errDT, vgen.Bool(co.err))
+	for _, e := range dErrs {
+		errDT = append(errDT, vgen.Bool(e))
 	}
-	for _, co := range cObs {
-		errCT = append(errCT, vgen.Bool(co.err))
+	for _, e := range cErrs {
+		errCT = append(errCT, vgen.Bool(e))
 	}
 	term := vgen.App("CHist", vgen.List(kindT), vgen.List(terms), vgen.List(perInst), vgen.Pair(vgen.List(errDT), vgen.List(errCT)))
 	desc := map[string]any{"history": seedDesc, "instruments": kindD, "attribute_sets": canons, "ops": descOps, "delta_reader_first": deltaFirst}
